@@ -2,6 +2,18 @@ import Abyss.Props.C04
 import Abyss.Lemmas.EngineScan
 import Abyss.Lemmas.EngineIter
 import Abyss.Props.C04Gen
+import Abyss.Props.C04Adapt
+import Abyss.Lemmas.IterAdaptL
+#print axioms Abyss.C04_generated_keys
+#print axioms Abyss.C04_generated_values
+#print axioms Abyss.C04_generated_iter_adaptor
+#print axioms Abyss.C04_generated_into_iter
+#print axioms Abyss.C04_generated_into_iter_ref
+#print axioms Abyss.C04_generated_iter_mut
+#print axioms Abyss.C04_generated_into_iter_mut
+#print axioms Abyss.iterKeysNext_eq
+#print axioms Abyss.iterValuesNext_eq
+#print axioms Abyss.iterSizeHint_eq
 #print axioms Abyss.C04_iter
 #print axioms Abyss.C04_keys_values
 #print axioms Abyss.C04_scan
